@@ -24,6 +24,7 @@ SEMANTICS = [
     "division, log, sqrt and real powers are total in the logic; every use generates a well-definedness obligation under the precondition",
     "python int is unbounded; numpy int32/int64 arrays carry their width (overflow obligations); storing a real into an integer array truncates toward zero",
     "numpy arrays are (shape, index -> element) with a dtype tag; element-wise ops, scalar/trailing broadcasting, basic slices, boolean masks, stores and copies are modelled; aliases are tracked by identity",
+    "pandas: a table is named columns of positional arrays and a pressure argument an array; label alignment of Series / DataFrame rows (non-default, permuted or offset indices) is NOT modelled - the bounded family 'container independence' (C09, C11, C12, C15, C16) evaluates it on the real code",
     "only explicit raise statements and the documented raises of modelled library calls are control flow",
     "evaluation order, short-circuiting and `is None` follow CPython; no concurrency, no recursion, no metaclasses",
     "extraction drops docstrings, annotations, comments, warnings.warn calls and the text of exception messages (class and path condition are kept)",
